@@ -505,7 +505,8 @@ func (p c15) Run(w *mon.Worker, idx int) mon.Result {
 					}
 					bv := rs[0].B
 					vals[op] = &bv
-					if sameClass {
+					if sameClass || (cerr == nil && rankOf(a) >= 2 && rankOf(b) >= 2) {
+						// (across the classes of numbers and strings too: an answer, where yq gives one, is the order's answer)
 						want := map[string]bool{"<": c < 0, "<=": c <= 0, ">": c > 0, ">=": c >= 0}[op]
 						if bv != want {
 							return fail("`%s %s %s` is %v, the reference order says %v", els[i].yaml, op, els[j].yaml, bv, want)
@@ -526,6 +527,28 @@ func (p c15) Run(w *mon.Worker, idx int) mon.Result {
 		for _, e := range els {
 			if rankOf(e.v) != rankOf(els[0].v) || rankOf(e.v) < 2 {
 				single = false
+			}
+		}
+		numStr := !single
+		for _, e := range els {
+			numStr = numStr && rankOf(e.v) >= 2
+		}
+		if numStr {
+			// numbers and strings mixed: yq may refuse (a number and a string are not comparable to `<`); an answer, if it
+			// gives one, is the order's answer
+			for _, fn := range []string{"min", "max"} {
+				rs, err := c15Eval(fn, doc)
+				res.Evals++
+				if err != nil || len(rs) != 1 {
+					continue
+				}
+				for _, e := range els {
+					c, _ := ref.Cmp(rs[0], e.v)
+					if (fn == "min" && c > 0) || (fn == "max" && c < 0) {
+						return fail("`%s` of %s is %s but %s is %s in the sort order", fn, strings.TrimSpace(doc), rs[0], e.yaml, map[string]string{"min": "smaller", "max": "larger"}[fn])
+					}
+				}
+				res.Tags = append(res.Tags, "minmax_mixed_answered")
 			}
 		}
 		if single {
